@@ -29,22 +29,47 @@ theorem doneIn_mono (fs0 fs : FS) (f : MFunc) (li : Nat) (hm : Mono fs0 fs) (h :
       exact List.all_eq_true.mpr fun o ho => hm _ rfl ((List.all_eq_true.mp h0) o ho)
   rw [h] at this; cases this
 
+theorem zip_fst_snd {α β} : ∀ l : List (α × β), (l.map (·.1)).zip (l.map (·.2)) = l
+  | [] => rfl
+  | (a, b) :: r => by simp [zip_fst_snd r]
+
+/-- a persisted dict of well-keyed cells loads back to the same cells -/
+theorem dictCells_tup (cells : List (Nat × Val)) (h : cells.map (·.1) = List.range cells.length) :
+    dictCells (.tup (cells.map (·.2))) = cells := by
+  simp only [dictCells, List.length_map]
+  rw [← h]; exact zip_fst_snd cells
+
+theorem doneInC_file (cfg : Cfg) (fs : FS) (f : MFunc) (li : Nat) (h : (isMapped f && isDictF cfg f) = false) :
+    doneInC cfg fs f li = doneIn fs f li := by
+  simp [doneInC, h]
+
+/-- the in-memory dicts that `init_store` loaded agree with the folder `fsI` they were loaded from -/
+def MemOk (W : Right) (fsI : FS) (mem : List (String × List (Nat × Val))) : Prop :=
+  ∀ o cs, alookup mem o = some cs →
+    (cs = [] ∧ fsI.files (.dictArr o) = none) ∨
+    (∃ v, fsI.files (.dictArr o) = some (.complete v) ∧ W (.dictArr o) v ∧ cs = dictCells v)
+
 /-- what one step of the resumable runner guarantees, given the result `r` of the same function in the uninterrupted run -/
 def StepOk (W : Right) (names : List String) (fs0 : FS) (cfg : Cfg) (f : MFunc) (r : FuncResult) (o : FOut) : Prop :=
   Safe (I W names fs0) o.subEvs ∧ Safe (I W names fs0) o.procEvs ∧
-  (∀ c ∈ o.calls, c.fn = f.name ∧ doneIn fs0 f c.li = false) ∧
-  ((∃ r', o.res = .ok r' ∧ r'.outputs = r.outputs ∧ r'.slots = r.slots) ∨ (cfg.failAt ≠ none ∧ ∃ fn, o.res = .error (.raised fn)))
+  (∀ c ∈ o.calls, c.fn = f.name ∧ doneInC cfg fs0 f c.li = false) ∧
+  ((∃ r', o.res = .ok r' ∧ r'.outputs = r.outputs ∧ r'.slots = r.slots) ∨ (cfg.failAt ≠ none ∧ ∃ fn, o.res = .error (.raised fn))) ∧
+  Bodies (I W names fs0) o.subEvs
 
-theorem stepFunc_spec (W : Right) (names : List String) (fs0 : FS) (cfg : Cfg) (hl : cfg.legacy = false) (hd : cfg.dict = false)
+theorem stepFunc_spec (W : Right) (names : List String) (fs0 : FS) (cfg : Cfg) (hl : cfg.legacy = false)
     (fsd : List MFunc) (shapes : List (String × List Nat)) (masks : List (String × List Bool)) (mem : List (String × List (Nat × Val)))
     (env : Env) (f : MFunc) (r : FuncResult) (hpf : runFuncWith opArray fsd shapes masks env f = .ok r) (hSR : SlotsRight W r.slots)
+    (fsI : FS) (hM0 : Mono fs0 fsI) (hMem : MemOk W fsI mem)
+    (hPlan : isMapped f = true → isDictF cfg f = true → ∀ o ∈ f.outputs, alookup mem o ≠ none)
     (fs : FS) (hI : I W names fs0 fs) (nc : Nat) :
     StepOk W names fs0 cfg f r (stepFunc cfg fsd shapes masks mem env fs nc f) := by
   have single : isMapped f = false → runSingle fsd env f = .ok r →
       StepOk W names fs0 cfg f r (stepSingle cfg fsd env fs nc f) := by
     intro hm h
-    obtain ⟨a, b, c, d⟩ := stepSingle_spec W names fs0 cfg hl fsd env f r h hSR fs hI nc
-    exact ⟨a, b, fun x hx => ⟨(c x hx).1, doneIn_mono fs0 fs f _ hI.mono (notDone_single fs f _ hm (c x hx).2)⟩, d⟩
+    obtain ⟨a, b, c, d, e⟩ := stepSingle_spec W names fs0 cfg hl fsd env f r h hSR fs hI nc
+    refine ⟨a, b, fun x hx => ⟨(c x hx).1, ?_⟩, d, e⟩
+    rw [doneInC_file cfg fs0 f _ (by simp [hm])]
+    exact doneIn_mono fs0 fs f _ hI.mono (notDone_single fs f _ hm (c x hx).2)
   unfold runFuncWith at hpf
   unfold stepFunc
   cases hms : f.mapspec with
@@ -70,32 +95,90 @@ theorem stepFunc_spec (W : Right) (names : List String) (fs0 : FS) (cfg : Cfg) (
           | some mk =>
             simp only [hs, hk] at hpf ⊢
             by_cases hlen : sh.length = mk.length
-            · simp only [hlen, ne_eq, not_true_eq_false, ↓reduceIte, hd, Bool.false_eq_true] at hpf ⊢
-              obtain ⟨a, b, c, d⟩ := stepMapped_spec W names fs0 cfg hl hd fsd env f ms sh mk r hlen hpf hSR fs hI nc
-              refine ⟨a, by rw [b]; exact Safe.nil _, fun x hx => ⟨(c x hx).1, ?_⟩, d⟩
-              exact doneIn_mono fs0 fs f _ hI.mono (notDone_mapped fs f _ hmapped (c x hx).2)
+            · simp only [hlen, ne_eq, not_true_eq_false, ↓reduceIte] at hpf ⊢
+              cases hdict : isDictF cfg f with
+              | false =>
+                simp only [Bool.false_eq_true, ↓reduceIte]
+                have hV : ∀ o ∈ f.outputs, ∀ li, fileView fs o li = none ∨ ∃ v, fileView fs o li = some (.complete v) ∧ W (.cell o li) v :=
+                  fun o _ li => hI.inv (.cell o li) rfl
+                obtain ⟨a, b, c, d, e⟩ := stepMapped_spec W names fs0 cfg hl false fsd env f ms sh mk r hlen hpf hSR (fileView fs) hV nc
+                refine ⟨a, by rw [b]; exact Safe.nil _, fun x hx => ⟨(c x hx).1, ?_⟩, d, e⟩
+                rw [doneInC_file cfg fs0 f _ (by simp [hdict])]
+                exact doneIn_mono fs0 fs f _ hI.mono (notDone_mapped fs f _ hmapped (c x hx).2.2)
+              | true =>
+                simp only [↓reduceIte]
+                obtain ⟨args, _, _, hslots⟩ := runMappedWith_ok fsd env f ms sh mk r hpf
+                have hsl : ∀ o ∈ f.outputs, (∀ li v, W (.cell o li) v ↔ cellLookup (cellsOf f (prod (extOf mk sh)) args o) li = some v) ∧
+                    (∀ v, W (.dictArr o) v → dictCells v = cellsOf f (prod (extOf mk sh)) args o) := by
+                  intro o ho
+                  have hm : (o, Slot.array sh mk (cellsOf f (prod (extOf mk sh)) args o)) ∈ r.slots := by
+                    rw [hslots]; exact List.mem_map.mpr ⟨o, ho, rfl⟩
+                  refine ⟨(hSR _ _ hm).1, fun v hv => ?_⟩
+                  obtain ⟨e1, e2⟩ := ((hSR _ _ hm).2.2 v).mp hv
+                  rw [e1]; exact dictCells_tup _ e2
+                have hV : ∀ o ∈ f.outputs, ∀ li, dictView mem o li = none ∨ ∃ v, dictView mem o li = some (.complete v) ∧ W (.cell o li) v := by
+                  intro o ho li
+                  unfold dictView
+                  cases hmo : alookup mem o with
+                  | none => exact Or.inl rfl
+                  | some cs =>
+                    rcases hMem o cs hmo with ⟨e, _⟩ | ⟨v, _, hw, e⟩
+                    · subst e; exact Or.inl rfl
+                    · rw [e, (hsl o ho).2 v hw]
+                      cases hc : cellLookup (cellsOf f (prod (extOf mk sh)) args o) li with
+                      | none => exact Or.inl (by simp [hc])
+                      | some x => exact Or.inr ⟨x, by simp [hc], ((hsl o ho).1 li x).mpr hc⟩
+                obtain ⟨a, b, c, d, e⟩ := stepMapped_spec W names fs0 cfg hl true fsd env f ms sh mk r hlen hpf hSR (dictView mem) hV nc
+                refine ⟨a, by rw [b]; exact Safe.nil _, fun x hx => ⟨(c x hx).1, ?_⟩, d, e⟩
+                obtain ⟨_, hlt, hmiss⟩ := c x hx
+                simp only [isMissing, List.any_eq_true] at hmiss
+                obtain ⟨o, ho, hn⟩ := hmiss
+                have hnone : dictView mem o x.li = none := by
+                  cases hv : dictView mem o x.li <;> simp [hv] at hn ⊢
+                have habs : fs0.files (.dictArr o) = none := by
+                  unfold dictView at hnone
+                  cases hmo : alookup mem o with
+                  | none => exact absurd hmo (hPlan hmapped hdict o ho)
+                  | some cs =>
+                    rw [hmo] at hnone
+                    rcases hMem o cs hmo with ⟨_, e⟩ | ⟨v, _, hw, e⟩
+                    · cases h0 : fs0.files (.dictArr o) with
+                      | none => rfl
+                      | some c0 =>
+                        have := hM0 (.dictArr o) rfl (by rw [h0]; rfl)
+                        rw [e] at this; cases this
+                    · rw [e, (hsl o ho).2 v hw] at hnone
+                      simp only [cellLookup_cellsOf, hlt, ↓reduceIte] at hnone
+                      cases hnone
+                simp only [doneInC, hmapped, hdict, Bool.and_self, ↓reduceIte]
+                apply Bool.eq_false_iff.mpr
+                intro hall
+                have := (List.all_eq_true.mp hall) o ho
+                rw [habs] at this; cases this
             · simp [hlen] at hpf
 
 def GenOk (W : Right) (names : List String) (fs0 : FS) (cfg : Cfg) (gen : List MFunc) (rs : List FuncResult) (g : GOut) : Prop :=
   Safe (I W names fs0) g.subEvs ∧ Safe (I W names fs0) g.procEvs ∧
-  (∀ c ∈ g.calls, ∃ f ∈ gen, c.fn = f.name ∧ doneIn fs0 f c.li = false) ∧
+  (∀ c ∈ g.calls, ∃ f ∈ gen, c.fn = f.name ∧ doneInC cfg fs0 f c.li = false) ∧
   ((∃ rs', g.res = .ok rs' ∧ rs'.flatMap (·.outputs) = rs.flatMap (·.outputs) ∧ rs'.flatMap (·.slots) = rs.flatMap (·.slots)) ∨
-   (cfg.failAt ≠ none ∧ ∃ fn, g.res = .error (.raised fn)))
+   (cfg.failAt ≠ none ∧ ∃ fn, g.res = .error (.raised fn))) ∧
+  Bodies (I W names fs0) g.subEvs
 
 theorem runGenR_spec (W : Right) (names : List String) (fs0 : FS) (cfg : Cfg) (R : Env → MFunc → M FuncResult)
     (step : Env → FS → Nat → MFunc → FOut)
-    (hstep : ∀ env f r, R env f = .ok r → SlotsRight W r.slots → ∀ fs, I W names fs0 fs → ∀ nc, StepOk W names fs0 cfg f r (step env fs nc f))
-    (env : Env) : ∀ (gen : List MFunc) (rs : List FuncResult) (fs : FS) (nc : Nat), runGenWith R env gen = .ok rs →
+    (Pf : MFunc → Prop)
+    (hstep : ∀ env f r, Pf f → R env f = .ok r → SlotsRight W r.slots → ∀ fs, I W names fs0 fs → ∀ nc, StepOk W names fs0 cfg f r (step env fs nc f))
+    (env : Env) : ∀ (gen : List MFunc) (rs : List FuncResult) (fs : FS) (nc : Nat), (∀ f ∈ gen, Pf f) → runGenWith R env gen = .ok rs →
       (∀ r ∈ rs, SlotsRight W r.slots) → I W names fs0 fs → GenOk W names fs0 cfg gen rs (runGenR step env fs nc gen) := by
   intro gen
   induction gen with
   | nil =>
-    intro rs fs nc h _ _
+    intro rs fs nc _ h _ _
     simp only [runGenWith, pure, Except.pure] at h
     cases h
-    exact ⟨Safe.nil _, Safe.nil _, by simp [runGenR], Or.inl ⟨[], rfl, rfl, rfl⟩⟩
+    exact ⟨Safe.nil _, Safe.nil _, by simp [runGenR], Or.inl ⟨[], rfl, rfl, rfl⟩, Bodies.nil _⟩
   | cons f rest ih =>
-    intro rs fs nc h hSR hI
+    intro rs fs nc hP h hSR hI
     simp only [runGenWith, bind, Except.bind] at h
     split at h
     · cases h
@@ -105,13 +188,13 @@ theorem runGenR_spec (W : Right) (names : List String) (fs0 : FS) (cfg : Cfg) (R
       · next rs1 hrs1 =>
         simp only [pure, Except.pure] at h
         cases h
-        obtain ⟨a, b, c, d⟩ := hstep env f r hr (hSR r (by simp)) fs hI nc
+        obtain ⟨a, b, c, d, e⟩ := hstep env f r (hP f (by simp)) hr (hSR r (by simp)) fs hI nc
         rcases d with ⟨r', hres, ho, hs⟩ | ⟨hne, fn, hres⟩
-        · obtain ⟨a2, b2, c2, d2⟩ := ih rs1 (applyAll fs (step env fs nc f).subEvs) (nc + (step env fs nc f).ncalls) hrs1
-            (fun x hx => hSR x (by simp [hx])) (a.final fs hI)
+        · obtain ⟨a2, b2, c2, d2, e2⟩ := ih rs1 (applyAll fs (step env fs nc f).subEvs) (nc + (step env fs nc f).ncalls)
+            (fun g hg => hP g (by simp [hg])) hrs1 (fun x hx => hSR x (by simp [hx])) (a.final fs hI)
           rcases d2 with ⟨rs', hres2, ho2, hs2⟩ | ⟨hne, fn, hres2⟩
           · simp only [runGenR, hres, hres2]
-            refine ⟨Safe.append a a2, Safe.append b b2, ?_, Or.inl ⟨_, rfl, ?_, ?_⟩⟩
+            refine ⟨Safe.append a a2, Safe.append b b2, ?_, Or.inl ⟨_, rfl, ?_, ?_⟩, Bodies.append e e2⟩
             · intro x hx
               rcases List.mem_append.mp hx with hx | hx
               · exact ⟨f, by simp, c x hx⟩
@@ -119,36 +202,37 @@ theorem runGenR_spec (W : Right) (names : List String) (fs0 : FS) (cfg : Cfg) (R
             · simp [List.flatMap_cons, ho, ho2]
             · simp [List.flatMap_cons, hs, hs2]
           · simp only [runGenR, hres, hres2]
-            refine ⟨Safe.append a a2, Safe.nil _, ?_, Or.inr ⟨hne, fn, rfl⟩⟩
+            refine ⟨Safe.append a a2, Safe.nil _, ?_, Or.inr ⟨hne, fn, rfl⟩, Bodies.append e e2⟩
             intro x hx
             rcases List.mem_append.mp hx with hx | hx
             · exact ⟨f, by simp, c x hx⟩
             · obtain ⟨g, hg, hh⟩ := c2 x hx; exact ⟨g, by simp [hg], hh⟩
         · simp only [runGenR, hres]
-          exact ⟨a, Safe.nil _, fun x hx => ⟨f, by simp, c x hx⟩, Or.inr ⟨hne, fn, rfl⟩⟩
+          exact ⟨a, Safe.nil _, fun x hx => ⟨f, by simp, c x hx⟩, Or.inr ⟨hne, fn, rfl⟩, e⟩
 
 def LoopOk (W : Right) (names : List String) (fs0 : FS) (cfg : Cfg) (gens : List (List MFunc)) (rs : List FuncResult) (envF : Env)
     (l : LOut) : Prop :=
   Safe (I W names fs0) l.evs ∧
-  (∀ c ∈ l.calls, ∃ f ∈ gens.flatten, c.fn = f.name ∧ doneIn fs0 f c.li = false) ∧
+  (∀ c ∈ l.calls, ∃ f ∈ gens.flatten, c.fn = f.name ∧ doneInC cfg fs0 f c.li = false) ∧
   ((∃ rs', l.res = .ok (rs', envF) ∧ rs'.flatMap (·.outputs) = rs.flatMap (·.outputs)) ∨
    (cfg.failAt ≠ none ∧ ∃ fn, l.res = .error (.raised fn)))
 
 theorem runGensR_spec (W : Right) (names : List String) (fs0 : FS) (cfg : Cfg) (R : Env → MFunc → M FuncResult)
     (step : Env → FS → Nat → MFunc → FOut)
-    (hstep : ∀ env f r, R env f = .ok r → SlotsRight W r.slots → ∀ fs, I W names fs0 fs → ∀ nc, StepOk W names fs0 cfg f r (step env fs nc f)) :
-    ∀ (gens : List (List MFunc)) (env : Env) (rs : List FuncResult) (envF : Env) (fs : FS) (nc : Nat),
+    (Pf : MFunc → Prop)
+    (hstep : ∀ env f r, Pf f → R env f = .ok r → SlotsRight W r.slots → ∀ fs, I W names fs0 fs → ∀ nc, StepOk W names fs0 cfg f r (step env fs nc f)) :
+    ∀ (gens : List (List MFunc)) (env : Env) (rs : List FuncResult) (envF : Env) (fs : FS) (nc : Nat), (∀ f ∈ gens.flatten, Pf f) →
       runGensWith R gens env = .ok (rs, envF) → (∀ r ∈ rs, SlotsRight W r.slots) → I W names fs0 fs →
       LoopOk W names fs0 cfg gens rs envF (runGensR step gens env fs nc) := by
   intro gens
   induction gens with
   | nil =>
-    intro env rs envF fs nc h _ _
+    intro env rs envF fs nc _ h _ _
     simp only [runGensWith, pure, Except.pure] at h
     cases h
     exact ⟨Safe.nil _, by simp [runGensR], Or.inl ⟨[], rfl, rfl⟩⟩
   | cons gen rest ih =>
-    intro env rs envF fs nc h hSR hI
+    intro env rs envF fs nc hP h hSR hI
     simp only [runGensWith, bind, Except.bind] at h
     split at h
     · cases h
@@ -159,19 +243,21 @@ theorem runGensR_spec (W : Right) (names : List String) (fs0 : FS) (cfg : Cfg) (
         obtain ⟨more, envF'⟩ := p
         simp only [pure, Except.pure] at h
         cases h
-        obtain ⟨a, b, c, d⟩ := runGenR_spec W names fs0 cfg R step hstep env gen rs1 fs nc hrs1 (fun x hx => hSR x (by simp [hx])) hI
+        obtain ⟨a, b, c, d, _⟩ := runGenR_spec W names fs0 cfg R step Pf hstep env gen rs1 fs nc (fun g hg => hP g (by simp [hg])) hrs1
+          (fun x hx => hSR x (by simp [hx])) hI
         have hsafe : Safe (I W names fs0) ((runGenR step env fs nc gen).subEvs ++ (runGenR step env fs nc gen).procEvs) := Safe.append a b
-        have hc : ∀ x ∈ (runGenR step env fs nc gen).calls, ∃ f ∈ (gen :: rest).flatten, x.fn = f.name ∧ doneIn fs0 f x.li = false := by
+        have hc : ∀ x ∈ (runGenR step env fs nc gen).calls, ∃ f ∈ (gen :: rest).flatten, x.fn = f.name ∧ doneInC cfg fs0 f x.li = false := by
           intro x hx; obtain ⟨f, hf, hh⟩ := c x hx; exact ⟨f, by simp [hf], hh⟩
         rcases d with ⟨rs', hres, ho, hs⟩ | ⟨hne, fn, hres⟩
         · have henv : ({ env with store := env.store ++ rs'.flatMap (·.slots) } : Env) = { env with store := env.store ++ rs1.flatMap (·.slots) } := by
             rw [hs]
           obtain ⟨a2, c2, d2⟩ := ih _ more envF
-            (applyAll fs ((runGenR step env fs nc gen).subEvs ++ (runGenR step env fs nc gen).procEvs)) (runGenR step env fs nc gen).nc hp
+            (applyAll fs ((runGenR step env fs nc gen).subEvs ++ (runGenR step env fs nc gen).procEvs)) (runGenR step env fs nc gen).nc
+            (fun g hg => hP g (by simp only [List.flatten_cons, List.mem_append]; exact Or.inr hg)) hp
             (fun x hx => hSR x (by simp [hx])) (hsafe.final fs hI)
           have hc2 : ∀ x ∈ (runGensR step rest { env with store := env.store ++ rs1.flatMap (·.slots) }
               (applyAll fs ((runGenR step env fs nc gen).subEvs ++ (runGenR step env fs nc gen).procEvs)) (runGenR step env fs nc gen).nc).calls,
-              ∃ f ∈ (gen :: rest).flatten, x.fn = f.name ∧ doneIn fs0 f x.li = false := by
+              ∃ f ∈ (gen :: rest).flatten, x.fn = f.name ∧ doneInC cfg fs0 f x.li = false := by
             intro x hx; obtain ⟨f, hf, hh⟩ := c2 x hx; exact ⟨f, by simp [hf], hh⟩
           simp only [runGensR, hres, henv]
           refine ⟨Safe.append hsafe a2, ?_, ?_⟩
